@@ -108,6 +108,7 @@ func (e *env) execute(p *asm.Plan, root map[string]any) (res result) {
 	if err := p.Execute(root); err != nil {
 		res.raised, res.errText = true, err.Error()
 	}
+	res.root, _ = snapshot(root).(map[string]any)
 	return
 }
 
@@ -123,7 +124,8 @@ func (e *env) evalDirect(p *asm.Plan, root map[string]any, fn string) (res resul
 		}
 	}()
 	e.cnt["evaluations"]++
-	res.val = p.Eval(root, root, p.Args...)
+	defer func() { res.root, _ = snapshot(root).(map[string]any) }() // also when the plan raised
+	res.val = snapshot(p.Eval(root, root, p.Args...))
 	return
 }
 
@@ -229,6 +231,7 @@ type compiled struct {
 	pre  []finding // plan-level findings
 
 	sawRaise bool // Plan.Execute has already returned an error for this plan on some root
+	unstable bool // a second run differed from the first on some root
 }
 
 func (e *env) compile(arr []any, fn string) *compiled {
@@ -338,6 +341,24 @@ func sameOutcome(a, b result) (string, bool) {
 	return "", true
 }
 
+// sameBehaviour is the reprint comparison: a plan that went through text may
+// hold 2 where the original held 2.0, so numbers compare by value and the Go
+// type names of numbers in error texts are not told apart.
+func sameBehaviour(a, b result) (string, bool) {
+	norm := func(s string) string {
+		return strings.ReplaceAll(strings.ReplaceAll(s, "float64", "number"), "int64", "number")
+	}
+	switch {
+	case a.raised != b.raised:
+		return "raise", false
+	case norm(a.errText) != norm(b.errText):
+		return "error-text", false
+	case !eqNumeric(a.root, b.root):
+		return "root", false
+	}
+	return "", true
+}
+
 func outcome(r result) string {
 	if r.escaped != nil {
 		return fmt.Sprintf("PANIC %v", r.escaped)
@@ -383,9 +404,11 @@ func (e *env) judgeRoot(cp *compiled, ri int) (out []finding) {
 	} else {
 		r1 = e.evalDirect(cp.p, e.mkRoot(ri), cp.fn)
 	}
-	stable := true
+	stable := !cp.unstable
 	if what, same := sameOutcome(r2, r1); !same {
-		stable = false
+		// the plan changed itself while running: what it does from now on (also
+		// on the following roots) says nothing about the other oracles
+		stable, cp.unstable = false, true
 		add("nondeterministic", "second-run:"+what, outcome(r2), outcome(r1))
 	}
 	if r1.raised {
@@ -434,7 +457,7 @@ func (e *env) judgeRoot(cp *compiled, ri int) (out []finding) {
 				continue
 			}
 			r := e.evalDirect(alt.p, e.mkRoot(ri), cp.fn)
-			if what, same := sameOutcome(r1, r); !same {
+			if what, same := sameBehaviour(r1, r); !same {
 				cause := alt.cause
 				if cause == "" {
 					cause = "same-array"
